@@ -965,9 +965,12 @@ int32 sslActivateWriteCipher(ssl_t *ssl)
 /*
         Copy the newly activated write keys into the live buffers
  */
-        Memcpy(ssl->sec.writeMAC, ssl->sec.wMACptr, ssl->enMacSize);
-        Memcpy(ssl->sec.writeKey, ssl->sec.wKeyptr, ssl->cipher->keySize);
-        Memcpy(ssl->sec.writeIV, ssl->sec.wIVptr, ssl->cipher->ivSize);
+        if (ssl->sec.wMACptr)
+            Memcpy(ssl->sec.writeMAC, ssl->sec.wMACptr, ssl->enMacSize);
+        if (ssl->sec.wKeyptr)
+            Memcpy(ssl->sec.writeKey, ssl->sec.wKeyptr, ssl->cipher->keySize);
+        if (ssl->sec.wIVptr)
+            Memcpy(ssl->sec.writeIV, ssl->sec.wIVptr, ssl->cipher->ivSize);
 # ifdef DEBUG_TLS_MAC
         psTracePrintTlsKeys("Write keys", ssl, PS_TRUE);
 # endif /* DEBUG_TLS_MAC */
